@@ -97,8 +97,7 @@ def globAccepts (pattern path : String) : Bool := gmatch (compileGlob pattern.to
 
 /-- `Workflow._find_owning_static_tree` -/
 def KState.owningTree (s : KState) (path : String) : M (Option Key) :=
-  let p := addSlash path
-  let trees := s.nodes.filter fun n => n.key.kind = .st ∧ !n.detached ∧ p.startsWith n.key.label
+  let trees := s.nodes.filter fun n => n.key.kind = .st ∧ !n.detached ∧ path.startsWith n.key.label
   match trees with
   | [] => pure none
   | [t] => pure (some t.key)
